@@ -216,37 +216,37 @@ structure Cfg2 where
   trs : List Tr2
   ent : Ent
   skipBlocks : Bool
+  /-- `ctx["blockSize"]` when it is a `uint` (see `BlockGen.Cfg.bs`) -/
+  bs : Option Nat
 
 /-- the configuration seen by the decoder -/
-def Cfg2.toCfg (c : Cfg2) : Cfg := ⟨c.ck, trsOf c.trs, c.ent, c.skipBlocks⟩
+def Cfg2.toCfg (c : Cfg2) : Cfg := ⟨c.ck, trsOf c.trs, c.ent, c.skipBlocks, c.bs⟩
 
 /-- Go: `if len(this.oBuffer.Buf) < requiredSize { buffer = make([]byte, requiredSize) … }` -/
 def growTo (obuf req : Nat) : Nat := if obuf < req then req else obuf
 
-/-- the block handed to the entropy coder (not a copy block) -/
-def postBlock (trs : List Tr2) (obuf : Nat) (data : List Nat) : List Nat :=
-  (seqForward2 trs (seqMaxLen (trsOf trs) data.length) (growTo obuf (seqMaxLen (trsOf trs) data.length))
-    (initDt data) data).1
+/-- output and skip flags of `t.Forward(data[0:blockLength], buffer)` in `encode` -/
+def forwardOf (trs : List Tr2) (obuf : Nat) (data : List Nat) : List Nat × Nat :=
+  seqForward2 trs (seqMaxLen (trsOf trs) data.length) (growTo obuf (seqMaxLen (trsOf trs) data.length))
+    (initDt data) data
+
+/-- the block handed to the entropy coder (not a copy block) and the skip flags written, after the bound of
+fix F43 on the post-transform length (`BlockGen.fallback`; `lim` = `ctx["blockSize"]`) -/
+def postOf (trs : List Tr2) (lim : Option Nat) (obuf : Nat) (data : List Nat) : List Nat × Nat :=
+  fallback lim (seqMaxLen (trsOf trs) data.length) data (forwardOf trs obuf data)
+
+def postBlock (trs : List Tr2) (lim : Option Nat) (obuf : Nat) (data : List Nat) : List Nat :=
+  (postOf trs lim obuf data).1
 
 /-- the payload of a block that is not a copy block; `obuf` = `len(oBuffer.Buf)` on entry -/
-def encodeWith2 (trs : List Tr2) (ent : Ent) (ckw sum obuf : Nat) (data : List Nat) : Except EncErr Bits :=
-  let req := seqMaxLen (trsOf trs) data.length
-  let f := seqForward2 trs req (growTo obuf req) (initDt data) data
-  let post := f.1.length
-  if post ≥ 256 ∧ post % 2 ^ 32 = 0 then .error .panic
-  else if dataSizeGen post > 4 then .error .length
-  else
-    let mode0 := ((dataSizeGen post - 1) &&& 3) <<< 5
-    let em := encodeMode mode0 f.2 trs.length
-    match ent.enc f.1 with
-    | none => .error .entropy
-    | some e =>
-      .ok (natBits em.1 8 ++ extraBits em.2 ++ natBits post (8 * dataSizeGen post) ++ natBits sum ckw ++ e)
+def encodeWith2 (trs : List Tr2) (ent : Ent) (ckw sum : Nat) (lim : Option Nat) (obuf : Nat) (data : List Nat) :
+    Except EncErr Bits :=
+  encodeOf false trs.length ent ckw sum (postOf trs lim obuf data)
 
 /-- Go: `encodingTask.encode` from "Compute block checksum" to `obs.Close()` -/
 def encodeTaskGen2 (c : Cfg2) (obuf : Nat) (data : List Nat) : Except EncErr Bits :=
-  if isCopy c.toCfg data then encodeWith true [nullTr] noneEnt (ckWidth c.ck) (checksum c.ck data) data
-  else encodeWith2 c.trs c.ent (ckWidth c.ck) (checksum c.ck data) obuf data
+  if isCopy c.toCfg data then encodeWith true [nullTr] noneEnt (ckWidth c.ck) (checksum c.ck data) c.bs data
+  else encodeWith2 c.trs c.ent (ckWidth c.ck) (checksum c.ck data) c.bs obuf data
 
 /-- `len(oBuffer.Buf)` when `encode` returns (a copy block uses the NONE sequence: `requiredSize` is the
 block length) -/
@@ -297,7 +297,7 @@ def entOf2 (e : Nat) : Option Ent :=
 
 def cfgOfHeader2 (h : Header.Header) (skipBlocks : Bool) : Option Cfg2 :=
   match newSeq2 h.transformType h.entropyType, entOf2 h.entropyType with
-  | some ks, some ent => some ⟨32 * h.ckSize, kindTrs ks, ent, skipBlocks⟩
+  | some ks, some ent => some ⟨32 * h.ckSize, kindTrs ks, ent, skipBlocks, some h.blockSize⟩
   | _, _ => Option.none
 
 /-! ### whole stream -/
